@@ -482,6 +482,11 @@ pub fn run(tier: Tier) -> i32 {
     let pairs: Vec<(&str, &str, &str)> = vec![
         ("retry-consumes-random-draws", r##"<svg><g><rect xy="#z|h" wh="{{randint(1,9)}}"/><rect id="z" wh="3"/></g><var r="{{randint(1,1000)}}"/><text text="[$r]"/></svg>"##,
             r##"<svg><g><rect id="z" wh="3"/><rect xy="#z|h" wh="{{randint(1,9)}}"/></g><var r="{{randint(1,1000)}}"/><text text="[$r]"/></svg>"##),
+        // third review round
+        ("retry-partial-draws/if-test", r##"<svg><if test="{{#z~w}}"><rect wh="{{randint(1,1000)}}"/></if><var r="{{randint(1,1000)}}"/><text text="[$r]"/><rect id="z" wh="3"/></svg>"##,
+            r##"<svg><rect id="z" wh="3"/><if test="{{#z~w}}"><rect wh="{{randint(1,1000)}}"/></if><var r="{{randint(1,1000)}}"/><text text="[$r]"/></svg>"##),
+        ("retry-stale-registration/second-run-of-group", r##"<svg><g><if test="1"><var v="3"/><rect xy="#z|h" wh="1"/></if><text text="[$v]"/><rect xy="#out|h" wh="1"/><rect id="z" wh="1"/></g><rect id="out" wh="1"/></svg>"##,
+            r##"<svg><rect id="out" wh="1"/><g><if test="1"><var v="3"/><rect xy="#z|h" wh="1"/></if><text text="[$v]"/><rect xy="#out|h" wh="1"/><rect id="z" wh="1"/></g></svg>"##),
         ("retry-consumes-random-draws-toplevel", r##"<svg><rect xy="#z|h" wh="{{randint(1,9)}}"/><rect id="z" wh="3"/><var r="{{randint(1,1000)}}"/><text text="[$r]"/></svg>"##,
             r##"<svg><rect id="z" wh="3"/><rect xy="#z|h" wh="{{randint(1,9)}}"/><var r="{{randint(1,1000)}}"/><text text="[$r]"/></svg>"##),
     ];
